@@ -91,6 +91,14 @@ Example c04_nonvacuous :
   ex_summary (match ex_n0 with Ok n => run (mkCfg false) (ex_lock_inputs ++ ex_release_inputs) n | _ => Panic 0 end) = Some (1, 6, 0, None).
 Proof. vm_compute. split; reflexivity. Qed.
 
+(* (7b) the proposal rule: a proposer that holds a lock proposes the locked block (None: a freshly
+   created block), in its current round, with the proof-of-lock round its own vote sets give *)
+Theorem c04_proposal_rule :
+  forall n n' o r polr lb, decide_proposal n = Ok (n', o) -> In (OProposal r polr lb) o ->
+  r = round n /\ lb = lblock n /\ (exists b, pol_info (votes n) = Ok (polr, b)).
+Proof. exact proposal_rule. Qed.
+Print Assumptions c04_proposal_rule.
+
 (* (8) the votes of one handled input, in terms of what was delivered to the node (every function
    of the node model walked): a precommit for a block rests on delivered valid prevotes for it, at
    its round, from more than two thirds of the power; a prevote for something else than a block
